@@ -19,6 +19,7 @@ import Ioc.FactorySkel
 import Ioc.Generated.Facts
 import IocProofs.Lemmas.SemCreate
 import IocProofs.Lemmas.M2IsCode
+import IocProofs.Lemmas.SemFactory2
 namespace Ioc.C03
 open Ioc.M2
 
@@ -248,5 +249,13 @@ def exDCC (inCr : Nat → Bool) : Sem.DCC :=
 example : (Sem.createDecision (exDCC (· == 7))).1 = none := by decide
 example : (Sem.createDecision (exDCC (fun x => x == 7 || x == 3))).1 = some 2 := by decide
 example : Sem.dccConsistent (exDCC (· == 7)) := by intro h; cases h
+
+/-- getEarlyBeanReference (factory.go:285-299), regenerated: the early reference is what the processors' chain returns for
+    the raw instance — the raw meta itself when they return the instance unchanged, a proxy meta of that version when they
+    substitute, an error when they or the proxy creation fail (the machine's `earlyO` / `fEarly`) -/
+theorem C03_code_getEarlyBeanReference (d : Sem.GEB) :
+    Go.run (Sem.gebPrims d) Progs.fac_getEarlyBeanReference [.int d.n, .ref d.n 0] [] =
+      some (Sem.encMeta d.n (Sem.earlyModel d).1, (Sem.earlyModel d).2) :=
+  Sem.getEarlyBeanReference_sem d
 
 end Ioc.C03
